@@ -22,11 +22,16 @@ def _pct(b: int) -> str:
     return "%" + _hexd(b // 16) + _hexd(b % 16)
 
 
-def quote_model(s: str) -> str:
+def quote_model(s: str, safe: str = "/", encoding=None, errors=None) -> str:
+    if (encoding not in (None, "utf-8", "utf8", "UTF-8")) or (errors not in (None, "strict")) or not isinstance(safe, str):
+        return _real_quote(s, safe, encoding, errors)      # outside the model: defer to the real function (realises s)
+    extra = [ord(x) for x in safe if ord(x) < 128]
     out = ""
     for ch in s:
         c = ord(ch)
-        if (65 <= c <= 90) or (97 <= c <= 122) or (48 <= c <= 57) or c == 95 or c == 46 or c == 45 or c == 126 or c == 47:
+        if (65 <= c <= 90) or (97 <= c <= 122) or (48 <= c <= 57) or c == 95 or c == 46 or c == 45 or c == 126:
+            out += ch
+        elif c < 128 and _in(c, extra):
             out += ch
         elif c < 0x80:
             out += _pct(c)
@@ -42,6 +47,13 @@ def quote_model(s: str) -> str:
     return out
 
 
+def _in(c: int, xs) -> bool:
+    for x in xs:
+        if c == x:
+            return True
+    return False
+
+
 def validate() -> None:
     """model == real quote on every single code point class boundary, all ASCII, and pairs from the interesting set"""
     pts = list(range(0, 0x100)) + [0x7FF, 0x800, 0xFFF, 0x1000, 0xD7FF, 0xE000, 0xFFFD, 0xFFFF, 0x10000, 0x10FFFF, 0x2603, 0xE9]
@@ -52,6 +64,9 @@ def validate() -> None:
     for a in hot:
         for b in hot:
             assert quote_model(a + b) == _real_quote(a + b), (a, b)
+    for sf in ("", "/~", ":/?#", "é"):
+        for a in hot:
+            assert quote_model(a + "x/", safe=sf) == _real_quote(a + "x/", safe=sf), (a, sf)
     for c in (0xD800, 0xDFFF):
         try:
             _real_quote(chr(c))
